@@ -926,7 +926,17 @@ fn exec_op(l: &mut Local, label: &str, uv: u64, op: &Op) {
         }
         Op::Rand(bound) => {
             use shuttle::rand::RngCore;
-            let v = shuttle::rand::thread_rng().next_u64();
+            // every flavour is exactly one scheduler draw; which one is a function of the operand
+            let mut r = shuttle::rand::thread_rng();
+            let v = match *bound % 3 {
+                0 => r.next_u32() as u64,
+                1 => r.next_u64(),
+                _ => {
+                    let mut buf = [0u8; 4];
+                    r.fill_bytes(&mut buf);
+                    u32::from_le_bytes(buf) as u64
+                }
+            };
             (v % (*bound).max(1)).to_string()
         }
         Op::SemAcquire(sm, n) => {
